@@ -198,6 +198,7 @@ class C18(Check):
             'gcx_broadcast': 64 if q else 1600,
             'gcx_raspelling': 80 if q else 1600,
             'angvec_smallbatch': 40 if q else 800,
+            'munu_inplace': 91 if q else 91 * 8,
         }
 
     # ------------------------------------------------------------------ generators
@@ -227,6 +228,8 @@ class C18(Check):
             return self._gen_flav(g, i)
         if cls == 'munu_circle':
             return self._gen_circle(g, i)
+        if cls == 'munu_inplace':
+            return self._gen_inplace(g, i)
         if cls in ('ang_roundtrip', 'ang_int'):
             return self._gen_ang(cls, g, i)
         if cls in ('vec_roundtrip', 'vec_f64norm'):
@@ -481,6 +484,113 @@ class C18(Check):
                     mask=[bool(t) for t in mask], scalar_index=int(g.integers(0, n)))
         return case
 
+    # in-place edits of a coordinate object between two transforms (class munu_inplace)
+    INPLACE_MODES = ('element', 'slice', 'all', 'mask', 'fancy')
+
+    @staticmethod
+    def _gen_index(g, mode, shape):
+        """JSON description of a numpy-style index into an object of ``shape`` (1-D or (2, h))."""
+        n = shape[-1]
+
+        def sl():
+            a = int(g.integers(0, n - 1))
+            b = int(g.integers(a + 1, n + 1))
+            step = int(g.choice([1, 1, 2, -1]))
+            if step < 0:
+                return {'t': 'slice', 'v': [b - 1, (a - 1) if a > 0 else None, -1]}
+            if g.random() < 0.3:
+                return {'t': 'slice', 'v': [a - n if a else None, None if b == n else b - n, step]}    # negative bounds
+            return {'t': 'slice', 'v': [a, b, step]}
+        if mode == 'all':
+            return {'t': str(g.choice(['all', 'ellipsis']))}
+        if len(shape) == 1:
+            if mode == 'element':
+                return {'t': 'int', 'v': int(g.integers(-n, n))}
+            if mode == 'slice':
+                return sl()
+            if mode == 'mask':
+                m = g.random(n) < g.choice([0.1, 0.5, 0.9])
+                m[int(g.integers(0, n))] = True
+                return {'t': 'mask', 'v': [bool(t) for t in m]}
+            k = int(g.integers(1, max(2, n // 2)))
+            v = g.permutation(n)[:k]
+            v = np.where(g.random(k) < 0.3, v - n, v)
+            return {'t': 'fancy', 'v': [int(t) for t in v]}
+        r = shape[0]
+        if mode == 'element':
+            return {'t': 'tuple', 'v': [{'t': 'int', 'v': int(g.integers(-r, r))}, {'t': 'int', 'v': int(g.integers(-n, n))}]}
+        if mode == 'slice':
+            first = {'t': 'int', 'v': int(g.integers(0, r))} if g.random() < 0.5 else {'t': 'all'}
+            return {'t': 'tuple', 'v': [first, sl()]}
+        if mode == 'mask':
+            m = g.random(shape) < g.choice([0.1, 0.5, 0.9])
+            m[int(g.integers(0, r)), int(g.integers(0, n))] = True
+            return {'t': 'mask', 'v': [[bool(t) for t in row] for row in m]}
+        k = int(g.integers(1, max(2, r * n // 2)))
+        rr, cc = np.unravel_index(g.permutation(r * n)[:k], shape)
+        return {'t': 'tuple', 'v': [{'t': 'fancy', 'v': [int(t) for t in rr]}, {'t': 'fancy', 'v': [int(t) for t in cc]}]}
+
+    @classmethod
+    def _idx(cls, spec):
+        t = spec['t']
+        if t == 'int':
+            return int(spec['v'])
+        if t == 'slice':
+            return slice(*spec['v'])
+        if t == 'all':
+            return slice(None)
+        if t == 'ellipsis':
+            return Ellipsis
+        if t == 'mask':
+            return np.asarray(spec['v'], dtype=bool)
+        if t == 'fancy':
+            return np.asarray(spec['v'], dtype=np.intp)
+        if t == 'tuple':
+            return tuple(cls._idx(x) for x in spec['v'])
+        raise ValueError(t)
+
+    def _gen_inplace(self, g, i):
+        stripe = i % 91
+        incl = S.sdss_incl_deg(stripe)
+        s2 = int((stripe + 1 + g.integers(0, 90)) % 91)                   # another stripe, never the same one
+        objs = []
+        order = g.permutation(3)
+        for k, (system, api) in enumerate((('icrs', 'frame'), ('icrs', 'skycoord'), ('munu', 'frame'), ('munu', 'skycoord'))):
+            icrs = system == 'icrs'
+            n = int(g.choice([8, 16, 30, 60]))
+            shape = (2, n // 2) if (i + k) % 4 == 3 else (n,)
+            lon, lat = self._frame_points(g, n, incl, icrs)
+            lon = np.where(lon >= 360.0, 0.0, lon)
+            cl, cb = lon.reshape(shape).copy(), lat.reshape(shape).copy()
+            edits = []
+            for mode in g.permutation(list(self.INPLACE_MODES))[:4]:
+                spec = self._gen_index(g, str(mode), shape)
+                idx = self._idx(spec)
+                sel = cl[idx]
+                vshape = list(np.shape(sel))
+                m = int(np.size(sel))
+                style = g.random()
+                if m > 1 and style < 0.2:                                 # one position broadcast into the selection
+                    vl, vb = self._frame_points(g, 1, incl, icrs)
+                    vl, vb, vshape = vl[0], vb[0], []
+                elif style < 0.55:                                        # small corrections of the positions held there
+                    vl, vb = S.offset_point(np.reshape(sel, -1), np.reshape(cb[idx], -1),
+                                            10.0 ** g.uniform(-10, -2, m), g.uniform(0, 2 * PI, m))
+                else:                                                     # unrelated positions (incl. poles of both systems, seam, node)
+                    vl, vb = self._frame_points(g, max(m, 1), incl, icrs)
+                    vl, vb = vl[:m], vb[:m]
+                vl = np.mod(np.asarray(vl, dtype=np.float64), 360.0)
+                vl = np.where(vl >= 360.0, 0.0, vl) + 0.0
+                vb = np.asarray(vb, dtype=np.float64)
+                cl[idx] = vl.reshape(vshape)
+                cb[idx] = vb.reshape(vshape)
+                edits.append({'mode': str(mode), 'index': spec, 'vshape': vshape,
+                              'lon': lst(np.reshape(vl, -1)), 'lat': lst(np.reshape(vb, -1))})
+            objs.append({'system': system, 'api': api, 'shape': list(shape), 'lon': lst(lon), 'lat': lst(lat),
+                         'history': ('same', 'other-first', 'sibling')[int(order[k % 3]) if k < 3 else int(g.integers(0, 3))],
+                         'edits': edits})
+        return {'kind': 'inplace', 'stripe': stripe, 'stripe2': s2, 'objs': objs}
+
     def _gen_ang(self, cls, g, i):
         lat = bool(i % 2)
         if cls == 'ang_int':
@@ -577,6 +687,8 @@ class C18(Check):
             return self._run_flav(case, out)
         if kind == 'circle':
             return self._run_circle(case, out)
+        if kind == 'inplace':
+            return self._run_inplace(case, out)
         if kind == 'ang':
             return self._run_ang(case, out)
         if kind == 'vec':
@@ -1428,6 +1540,196 @@ class C18(Check):
                     out.count('flav_derived_from_result_objects')
         out.nontrivial = incl != 0.0
         out.info.update(stripe=stripe, incl=incl, unit=case['unit'])
+
+    # ------------------------------------------------------------------ mu / nu: the caller's object edited in place
+    def _inpl_judge(self, out, what, system, content, got, incl, stripe):
+        """Direction-only clauses for one transform: ``content`` = (lon, lat) in degrees the source object read when it was
+        handed over, ``got`` = (lon, lat) of the answer.  Returns (tol, vin, cin) for the deferred round trip."""
+        other = 'munu' if system == 'icrs' else 'icrs'
+        lon = S.to_rad(np.reshape(content[0], -1), 'deg')
+        lat = S.to_rad(np.reshape(content[1], -1), 'deg')
+        glon, glat = np.reshape(got[0], -1), np.reshape(got[1], -1)
+        nn, q, p = S.munu_triad(incl, NODE)
+        node = S.to_rad(NODE, 'deg')
+        if system == 'icrs':
+            vin = S.unitvec(lon, lat)
+            vexp = np.stack([(vin * nn).sum(-1), (vin * q).sum(-1), (vin * p).sum(-1)], -1)
+        else:
+            vin = S.unitvec(lon - node, lat)
+            vexp = vin[:, :1] * nn + vin[:, 1:2] * q + vin[:, 2:3] * p
+        cin = np.sqrt((vin[:, 0] ** 2 + vin[:, 1] ** 2).astype(np.float64))
+        tol = tol_pos(np.sqrt((vexp[:, 0] ** 2 + vexp[:, 1] ** 2).astype(np.float64)))
+        wit = dict(stripe=stripe, history=what, lon_in=np.reshape(content[0], -1), lat_in=np.reshape(content[1], -1), lon_got=glon, lat_got=glat)
+        if not out.expect(np.shape(got[0]) == np.shape(content[0]), 'shape', '%s: result shape %r for an object of shape %r'
+                          % (what, np.shape(got[0]), np.shape(content[0])), stripe=stripe):
+            return None
+        fin = np.isfinite(glon) & np.isfinite(glat)
+        self._all(out, fin, 'never-nan', '%s returned a non-finite coordinate' % what, **wit)
+        vgot = self._v(glon, glat, NODE if other == 'munu' else 0.0)
+        e = S.sep_vec(vexp, vgot).astype(np.float64)
+        self._all(out, ~fin | (e <= tol), 'rotation-model',
+                  '%s: the answer is not the rotation (stripe_to_incl(%d)=%g about the node RA 95) of what the object holds now' % (what, stripe, incl),
+                  ratio=e / tol, err_rad=e, tol_rad=tol, **wit)
+        if glon.size >= 2:
+            a, b = np.arange(glon.size - 1), np.arange(1, glon.size)
+            d = np.abs(S.sep_vec(vin[a], vin[b]) - S.sep_vec(vgot[a], vgot[b])).astype(np.float64)
+            self._all(out, ~(fin[a] & fin[b]) | (d <= tol[a] + tol[b]), 'isometry', '%s changes the separation of a pair' % what,
+                      ratio=d / (tol[a] + tol[b]), diff_rad=d, stripe=stripe, history=what,
+                      lon_in=wit['lon_in'][a], lat_in=wit['lat_in'][a], lon_in_b=wit['lon_in'][b], lat_in_b=wit['lat_in'][b],
+                      lon_got=glon[a], lat_got=glat[a], lon_got_b=glon[b], lat_got_b=glat[b])
+        return tol, vin, cin
+
+    def _inpl_object(self, out, o, stripe, s2, incl, incl2):
+        SDSSMuNu, ICRS, SkyCoord = self.C.SDSSMuNu, self.ac.ICRS, self.ac.SkyCoord
+        system, api, hist = o['system'], o['api'], o['history']
+        frame_api = api == 'frame'
+        other = 'munu' if system == 'icrs' else 'icrs'
+        shape = tuple(o['shape'])
+        lon0, lat0 = f64(o['lon']).reshape(shape), f64(o['lat']).reshape(shape)
+        name = '%s %s%s' % ('ICRS' if system == 'icrs' else 'SDSSMuNu', 'frame' if frame_api else 'SkyCoord', ' of shape %r' % (shape,) if len(shape) > 1 else '')
+        arrow = 'ICRS -> (mu,nu)' if system == 'icrs' else '(mu,nu) -> ICRS'
+        box = [self._source(lon0, lat0, system, stripe, frame_api)]           # THE object the caller keeps and edits
+        exp_lon, exp_lat = lon0.copy(), lat0.copy()
+        out.count('inpl_frame_objects' if frame_api else 'inpl_skycoord_objects')
+        out.count('inpl_2d_objects' if len(shape) > 1 else 'inpl_1d_objects')
+        out.count('inpl_history_' + hist.replace('-', '_'))
+        pending = []
+        # the companion of a (mu,nu) object: another object of the same shape on another stripe, transformed in between
+        companion = None if system == 'icrs' else self._source(lat0[..., ::-1] + 90.0, lat0, 'munu', s2, frame_api)
+
+        def transform(step, t):
+            obj = box[0]
+            content = self._lonlat(obj, system)
+            what = '%s, %s, %s, to %s' % (name, arrow, step, 'stripe %d' % t if system == 'icrs' else 'ICRS')
+            res = obj.transform_to(SDSSMuNu(stripe=t) if system == 'icrs' else ICRS())
+            self._unmodified(out, obj, system, content, what, counter='inpl_source_unmodified_checks', stripe=t)
+            got = self._lonlat(res, other)
+            j = self._inpl_judge(out, what, system, content, got, incl if t == stripe else incl2, t)
+            out.count('inpl_transforms_%s' % system)
+            if j is not None:
+                pending.append((what, t, res, got, content) + j)
+            return j
+
+        def companion_transform(step):
+            content = self._lonlat(companion, 'munu')
+            res = companion.transform_to(ICRS())
+            self._inpl_judge(out, '%s, companion object on stripe %d, %s' % (name, s2, step), 'munu', content, self._lonlat(res, 'icrs'), incl2, s2)
+            out.count('inpl_companion_transforms')
+
+        def sequence(step, seq):
+            for k, what in enumerate(seq):
+                tag = '%s [%d of %d: %s]' % (step, k + 1, len(seq), '/'.join(seq))
+                if what == 'first':
+                    transform(tag, stripe)
+                elif system == 'icrs':
+                    transform(tag, s2)
+                else:
+                    companion_transform(tag)
+        seq = {'same': ['first'], 'other-first': ['other', 'first'], 'sibling': ['first', 'other', 'first']}[hist]
+        sequence('before any edit', ['first', 'other'] if hist == 'sibling' else ['first'])
+        for ne, ed in enumerate(o['edits']):
+            idx = self._idx(ed['index'])
+            vshape = tuple(ed['vshape'])
+            vl, vb = f64(ed['lon']).reshape(vshape), f64(ed['lat']).reshape(vshape)
+            val = self._source(vl if vshape else float(vl), vb if vshape else float(vb), system, stripe, frame_api)
+            before = self._lonlat(box[0], system)
+            box[0][idx] = val                                                 # in place: same object, new positions
+            exp_lon[idx] = vl
+            exp_lat[idx] = vb
+            now = self._lonlat(box[0], system)
+            if not (np.shape(now[0]) == shape and bool((now[0] == exp_lon).all()) and bool((now[1] == exp_lat).all())):
+                out.fail('harness-error', '%s: after item assignment (%s) the object does not read the assigned coordinates' % (name, ed['mode']))
+                return
+            moved = S.sep_vec(self._v(np.reshape(before[0], -1), np.reshape(before[1], -1)),
+                              self._v(np.reshape(now[0], -1), np.reshape(now[1], -1))).astype(np.float64)
+            out.count('inpl_edits')
+            out.count('inpl_%s_edits' % ed['mode'])
+            if not vshape and int(np.size(exp_lon[idx])) > 1:
+                out.count('inpl_broadcast_value_edits')
+            out.count('inpl_points_moved', int((moved > 0).sum()))
+            out.count('inpl_points_moved_lt_1e-6rad', int(((moved > 0) & (moved < 1e-6)).sum()))
+            step = 'after in-place edit %d (%s assignment, %d positions changed)' % (ne + 1, ed['mode'], int((moved > 0).sum()))
+            n0 = len(pending)
+            sequence(step, seq)
+            for rec in pending[n0:]:
+                out.count('inpl_transforms_after_edit_%s' % system)
+                out.count('inpl_points_moved_detectably', int((moved > 10.0 * rec[5]).sum()))
+        # ---- deferred: nothing below ran between the transforms above, so the history stayed what the caller's would be
+        for what, t, res, got, content, tol, vin, cin in pending:
+            again = self._lonlat(res, other)
+            self._all(out, self._same_bits(np.reshape(again[0], -1), np.reshape(got[0], -1)) & self._same_bits(np.reshape(again[1], -1), np.reshape(got[1], -1)),
+                      'result-unchanged', '%s: the result reads differently after later transforms of the same source object' % what,
+                      lon_first=np.reshape(got[0], -1), lat_first=np.reshape(got[1], -1), lon_now=np.reshape(again[0], -1), lat_now=np.reshape(again[1], -1), stripe=t)
+            out.count('inpl_results_alive_checks')
+            glon, glat = np.reshape(got[0], -1), np.reshape(got[1], -1)
+            fin = np.isfinite(glon) & np.isfinite(glat)
+            back = res.transform_to(ICRS() if system == 'icrs' else SDSSMuNu(stripe=t))
+            blon, blat = (np.reshape(x, -1) for x in self._lonlat(back, system))
+            e = S.sep_vec(vin, self._v(blon, blat, NODE if system == 'munu' else 0.0)).astype(np.float64)
+            trt = tol + tol_pos(cin)
+            self._all(out, ~fin | (np.isfinite(blon) & np.isfinite(blat) & (e <= trt)), 'roundtrip',
+                      '%s and back does not return what the object held' % what, ratio=e / trt, err_rad=e, tol_rad=trt, stripe=t,
+                      lon_in=np.reshape(content[0], -1), lat_in=np.reshape(content[1], -1), lon_got=glon, lat_got=glat, lon_back=blon, lat_back=blat)
+            out.count('inpl_roundtrips')
+            fresh = self._source(content[0], content[1], system, stripe, frame_api)
+            fres = fresh.transform_to(SDSSMuNu(stripe=t) if system == 'icrs' else ICRS())
+            flon, flat = (np.reshape(x, -1) for x in self._lonlat(fres, other))
+            e = S.sep_vec(self._v(glon, glat), self._v(flon, flat)).astype(np.float64)
+            self._all(out, ~fin | (np.isfinite(flon) & np.isfinite(flat) & (e <= 2 * tol)), 'object-reuse',
+                      '%s: the answer differs from the answer for a freshly built object holding the same positions' % what,
+                      ratio=e / (2 * tol), err_rad=e, stripe=t, lon_in=np.reshape(content[0], -1), lat_in=np.reshape(content[1], -1),
+                      lon_got=glon, lat_got=glat, lon_fresh=flon, lat_fresh=flat)
+            out.count('inpl_fresh_object_comparisons')
+            out.count('inpl_fresh_object_bit_identical', int(bool((self._same_bits(glon, flon) & self._same_bits(glat, flat)).all())))
+        # ---- a result (an object built by the code under test) edited in place and sent back; each was transformed back above
+        for rec in (pending[:1] + pending[-1:]) if len(pending) > 1 else pending:
+            what, t, res = rec[0], rec[1], rec[2]
+            c0 = self._lonlat(res, other)
+            first, last = (0,) * len(shape), (-1,) * len(shape)
+            try:
+                res[...] = res[::-1].copy()
+                res[first] = res[last]
+            except (ValueError, TypeError):        # astropy refuses the assignment (frame attributes riding along): nothing to judge
+                out.count('inpl_result_edit_refused_not_asserted')
+                continue
+            e_lon, e_lat = c0[0][::-1].copy(), c0[1][::-1].copy()
+            e_lon[first], e_lat[first] = e_lon[last], e_lat[last]
+            now = self._lonlat(res, other)
+            if not (bool((now[0] == e_lon).all()) and bool((now[1] == e_lat).all())):
+                out.fail('harness-error', '%s: the result, reversed in place, does not read reversed' % what)
+                continue
+            back = res.transform_to(ICRS() if system == 'icrs' else SDSSMuNu(stripe=t))
+            self._inpl_judge(out, 'result of [%s] reversed in place and transformed back' % what, other, now, self._lonlat(back, system),
+                             incl if t == stripe else incl2, t)
+            out.count('inpl_result_edits')
+        # ---- the object dies; objects of the same shape built afterwards tend to get its address (id) again
+        dead = id(box[0].frame if isinstance(box[0], SkyCoord) else box[0])
+        box[0] = None
+        held = []
+        for k in range(4):
+            lon, lat = np.mod(lon0 + 40.0 * (k + 1), 360.0), -lat0
+            nb = self._source(lon, lat, system, stripe, frame_api)
+            reused = id(nb.frame if isinstance(nb, SkyCoord) else nb) == dead
+            content = self._lonlat(nb, system)
+            res = nb.transform_to(SDSSMuNu(stripe=stripe) if system == 'icrs' else ICRS())
+            self._inpl_judge(out, '%s, %s, new object built after the edited one was dropped%s' % (name, arrow, ' (same id)' if reused else ''),
+                             system, content, self._lonlat(res, other), incl, stripe)
+            out.count('inpl_successor_objects')
+            if reused:
+                out.count('inpl_successor_objects_same_id')
+                break
+            held.append(nb)
+
+    def _run_inplace(self, case, out):
+        stripe, s2 = int(case['stripe']), int(case['stripe2'])
+        incl = self._stripe_definition(stripe, out)
+        incl2 = float(self.C.stripe_to_incl(s2))
+        out.expect(abs(incl2 - S.sdss_incl_deg(s2)) <= 1e-9, 'stripe-definition', 'stripe_to_incl(%d) = %r' % (s2, incl2), stripe=s2)
+        for o in case['objs']:
+            self._inpl_object(out, o, stripe, s2, incl, incl2)
+        out.nontrivial = incl != 0.0 or incl2 != 0.0
+        out.info.update(stripe=stripe, stripe2=s2, incl=incl, histories=[o['history'] for o in case['objs']],
+                        edits=[[e['mode'] for e in o['edits']] for o in case['objs']])
 
     # ------------------------------------------------------------------ angles <-> vectors
     @staticmethod
